@@ -1704,6 +1704,11 @@ impl Engine for C06 {
         let mut t = Trace::new("C06", seed, run);
         let kind = KINDS[rng.below(KINDS.len())];
         t.set_meta("builder", kind);
+        // a quarter of the runs obtain their header values by decoding (a relay reusing parsed
+        // headers) instead of assembling them in memory
+        if rng.chance(1, 4) {
+            t.set_meta("headers", "decoded");
+        }
         let taggable = kind != "CoseRecipient";
         t.set_meta(
             "encode",
@@ -1778,6 +1783,7 @@ impl Engine for C06 {
     fn exec(&self, t: &Trace, st: &mut RunStats) -> HResult<Option<Violation>> {
         let kind = t.meta_req("builder")?.to_string();
         let tagged = t.meta_req("encode")? == "tagged";
+        crate::model::set_headers_via_decode(if t.meta("headers") == Some("decoded") { 1 } else { 0 });
         let ops: Vec<&Step> = t.steps.iter().filter(|s| s.kind == "op").collect();
         let faults: Vec<&Step> = t.steps.iter().filter(|s| s.kind == "fault").collect();
         let verifies: Vec<&Step> = t.steps.iter().filter(|s| s.kind == "verify").collect();
@@ -1827,8 +1833,15 @@ impl Engine for C06 {
                 }
             }
         }
+        // what counts is the content any decoder must see in each descriptor - computed by the
+        // harness, not by coset (in "decoded" mode the decoder legitimately folds a small bignum
+        // into an integer or moves a typed-field label out of the extras)
+        let effective: Vec<crate::model::MHeader> = encs.iter().map(|(h, _)| h.normalised()).collect();
         for a in 0..encs.len() {
             for b in (a + 1)..encs.len() {
+                if effective[a] == effective[b] {
+                    continue;
+                }
                 if encs[a].1 == encs[b].1 {
                     return Ok(Some(Violation::new(
                         "C06.I2<=",
